@@ -71,6 +71,9 @@ REGRESSION = [
     _r("def f(a: Qlist[bool, 4]) -> Tuple[bool, bool]:\n    return (all(a), any(a))\n", [["a", ["bool"] * 4]], ["bool", "bool"]),
     _r("def f(a: Qlist[Qint[2], 3]) -> Tuple[Qint[2], Qint[2], Qint[2]]:\n    return (max(a), min(a), sum(a))\n", [["a", ["Qint2"] * 3]], ["Qint2", "Qint2", "Qint2"]),
     _r("def f(c: Qchar) -> bool:\n    return ord(c) == 3\n", [["c", "Qchar"]], "bool"),
+    _r("def f(a: Tuple[Qint[2], bool], b: Tuple[Qint[2], bool]) -> Tuple[bool, bool]:\n    return (a != b, a == b)\n", [["a", ["Qint2", "bool"]], ["b", ["Qint2", "bool"]]], ["bool", "bool"]),
+    _r("def f(a: Tuple[bool, bool], b: Tuple[bool, bool], c: bool) -> bool:\n    return (a != b) ^ c\n", [["a", ["bool", "bool"]], ["b", ["bool", "bool"]], ["c", "bool"]], "bool"),
+    _r("def f(a: Qlist[Qint[2], 2], b: Qlist[Qint[2], 2]) -> bool:\n    return a != b\n", [["a", ["Qint2", "Qint2"]], ["b", ["Qint2", "Qint2"]]], "bool"),
 ]
 
 
